@@ -10,14 +10,18 @@
        scalar where a container is declared, missing key, unknown key, the same key in
        a second spelling);
      * for every document its lower-case and upper-case respellings and, if it refers
-       to ${VAR}, the document with the value written out.
+       to ${VAR}, the document with the value written out;
+     * KeyMode "field"/"both": the same documents with the user-chosen keys of every map
+       renamed to spellings of struct field keys (Rekey: ka -> aB, KA -> AB, Kb -> cD);
+     * leaf kinds i64/u32/u64 carry the 64-bit boundary numbers (minint64, maxint64,
+       maxint64+1, maxuint64 — decimal strings, TLC integers are 32-bit).
    Used three ways: (1) model checking — the reference meaning is consistent (a loader
    can always answer: Loadable), Norm/Respell/Expand/Decode lemmas; (2) generation — one
    "TRACE {ty, env, docs}" line per (type, document) for the Go driver; (3) the same
    definitions are what ConfDocTrace evaluates on the recorded answers.            *)
 EXTENDS ConfDoc, Json
 
-CONSTANTS MaxSize, ChainSize, MaxFields, Schemes, Leaves, Emit
+CONSTANTS MaxSize, ChainSize, MaxFields, Schemes, Leaves, Emit, KeyMode
 EnvVal == "Zed"
 
 VARIABLES doc,        \* the base document of this case
@@ -76,6 +80,9 @@ GoodLeaf(kind) ==
   CASE kind = "int"    -> <<Num("0"), Num("-3"), Num("9007199254740993")>>
     [] kind = "i32"    -> <<Num("7"), Num("-3"), Num("300")>>
     [] kind = "u8"     -> <<Num("0"), Num("7")>>
+    [] kind = "u32"    -> <<Num("3000000000"), Num("7"), Num("300")>>
+    [] kind = "i64"    -> <<Num("-9223372036854775808"), Num("9223372036854775807"), Num("-3")>>
+    [] kind = "u64"    -> <<Num("9223372036854775808"), Num("18446744073709551615"), Num("9223372036854775807"), Num("7")>>
     [] kind = "float"  -> <<Num("1.5"), Num("-3"), Num("0.1")>>
     [] kind = "string" -> <<Str("abc"), Str(EnvRef), Str("12")>>
     [] kind = "bool"   -> <<Boo(TRUE), Boo(FALSE)>>
@@ -83,6 +90,9 @@ WrongLeaf(kind) ==
   CASE kind = "int"    -> {Num("-0.25"), Str("12"), Boo(TRUE)}
     [] kind = "i32"    -> {Num("1.5"), Str("12"), Num("3000000000")}
     [] kind = "u8"     -> {Num("300"), Num("-3"), Str("12")}
+    [] kind = "u32"    -> {Num("9007199254740993"), Num("-3"), Num("1.5")}
+    [] kind = "i64"    -> {Num("9223372036854775808"), Num("0.1"), Str("12")}
+    [] kind = "u64"    -> {Num("-3"), Num("1.5"), Str("12")}
     [] kind = "float"  -> {Str("12"), Boo(TRUE), Num("9007199254740993")}
     [] kind = "string" -> {Num("7"), Boo(TRUE)}
     [] kind = "bool"   -> {Str("true"), Num("0")}
@@ -121,8 +131,44 @@ Bad(T) ==
                          \cup {Map(<<[key |-> "ka", v |-> b]>>) : b \in Bad(T.t)}
     [] T.k = "struct" -> {Num("7"), Lst(<<Num("7")>>)} \cup StructBad(T)
 
-\* top level is always a table (TOML)
-BaseDocs(T) == {Good(T, j) : j \in 0..2} \cup StructBad(T)
+\* Keys of a map[string]T are data chosen by the user: any string, in particular one that
+\* spells (in whatever case) a field of the element struct or of an enclosing struct.
+\* Rekey renames the user keys of every map-typed position to strings from the pool of
+\* field keys (distinct keys stay distinct; keys that name struct fields are untouched).
+KeyAlt == ("ka" :> "aB" @@ "KA" :> "AB" @@ "Kb" :> "cD")
+RECURSIVE Rekey(_, _)
+Rekey(T, D) ==
+  CASE T.k = "struct" /\ D.k = "map" ->
+         IF ~Unambiguous(T) THEN D
+         ELSE Map([i \in DOMAIN D.m |->
+                 LET lk == Lower(D.m[i].key) IN
+                 IF lk \in LKeys(T) THEN [key |-> D.m[i].key, v |-> Rekey(FieldType(T, lk), D.m[i].v)]
+                 ELSE D.m[i]])
+    [] T.k = "slice" /\ D.k = "list" -> Lst([i \in DOMAIN D.l |-> Rekey(T.t, D.l[i])])
+    [] T.k = "map" /\ D.k = "map" ->
+         Map([i \in DOMAIN D.m |->
+                [key |-> IF D.m[i].key \in DOMAIN KeyAlt THEN KeyAlt[D.m[i].key] ELSE D.m[i].key,
+                 v |-> Rekey(T.t, D.m[i].v)]])
+    [] T.k = "ptr" -> Rekey(T.t, D)
+    [] OTHER -> D
+\* the same renaming on a value tree in reference form (maps are sets of entries)
+RECURSIVE RekeyVal(_)
+RekeyVal(V) ==
+  CASE V.k = "ptr"    -> IF V.nil THEN V ELSE [k |-> "ptr", nil |-> FALSE, v |-> RekeyVal(V.v)]
+    [] V.k = "slice"  -> [k |-> "slice", l |-> [i \in DOMAIN V.l |-> RekeyVal(V.l[i])]]
+    [] V.k = "map"    -> [k |-> "map", m |-> {[key |-> IF e.key \in DOMAIN KeyAlt THEN KeyAlt[e.key] ELSE e.key,
+                                                v |-> RekeyVal(e.v)] : e \in V.m}]
+    [] V.k = "struct" -> [k |-> "struct", f |-> [i \in DOMAIN V.f |-> [n |-> V.f[i].n, v |-> RekeyVal(V.f[i].v)]]]
+    [] OTHER -> V
+
+\* top level is always a table (TOML).  KeyMode: "plain" = user map keys from their own
+\* pool (ka, Kb, KA), "field" = only the documents whose user map keys were renamed to
+\* field-key spellings, "both".
+PlainDocs(T) == {Good(T, j) : j \in 0..2} \cup StructBad(T)
+FieldKeyDocs(T) == {Rekey(T, D) : D \in PlainDocs(T)} \ PlainDocs(T)
+BaseDocs(T) == CASE KeyMode = "plain" -> PlainDocs(T)
+                 [] KeyMode = "field" -> FieldKeyDocs(T)
+                 [] KeyMode = "both"  -> PlainDocs(T) \cup FieldKeyDocs(T)
 
 RECURSIVE Dedup(_)
 Dedup(s) == IF s = <<>> THEN <<>>
@@ -182,6 +228,17 @@ NormKeepsMeaning == memo = {} => /\ Fits(ty, Norm(ty, doc)) = Fits(ty, doc)
 ExpandLemma == memo = {} => /\ ~HasRef(doc) => Expand(doc, EnvVal) = doc
                             /\ ~HasRef(Expand(doc, EnvVal))
                             /\ Fits(ty, Expand(doc, EnvVal)) = Fits(ty, doc)
+\* user map keys are data: renaming them commutes with normalisation, does not change
+\* whether the document fits, and shows in the decoded value as exactly that renaming
+RekeyLemma == memo = {} => LET R == Rekey(ty, doc) IN
+                /\ Norm(ty, R) = Rekey(ty, Norm(ty, doc))
+                /\ Fits(ty, R) = Fits(ty, doc)
+                /\ Fits(ty, doc) => Decode(ty, R) = RekeyVal(Decode(ty, doc))
+\* a document is loaded in at least JSON and YAML; one that fits a type without 64-bit
+\* unsigned leaves is expressible in all three formats
+FormatsLemma == memo = {} => /\ {"json", "yaml"} \subseteq Formats(doc)
+                             /\ TomlOK(Expand(doc, EnvVal)) = TomlOK(doc)
+                             /\ \A mode \in {"lower", "upper"} : TomlOK(Respell(ty, doc, mode)) = TomlOK(doc)
 LoggedLemma == memo = {} /\ Fits(ty, doc) => RefForm(Logged(ty, doc)) = Decode(ty, doc)
 \* the family is not degenerate
 GoodFits == memo = {} => \A j \in 0..2 : Fits(ty, Good(ty, j))
@@ -194,6 +251,7 @@ Shapes(T, D) ==
        (IF HasPtrContainer(T) THEN {"KF_PtrContainer"} ELSE {})
   \cup (IF HasBadChain(T) THEN {"KF_NestedContainerCase"} ELSE {})
   \cup (IF AnyCollision(T, D) THEN {"KF_CaseDupKeys"} ELSE {})
+  \cup (IF DeepKeyClash(T, D) THEN {"KF_DeepMapFieldKey"} ELSE {})
   \cup (IF PlainType(T) /\ AnyCollision(T, D) THEN {"KF_PlainKeyCase"} ELSE {})
   \cup (IF PlainType(T) /\ MissingMapField(T, D) THEN {"KF_PlainMissingMap"} ELSE {})
 Labelled(T, ds) == [i \in DOMAIN ds |-> [d |-> ds[i], s |-> Shapes(T, ds[i])]]
@@ -225,6 +283,13 @@ WitnessSet ==
     [kf |-> "KF_NestedContainerCase",
      ty |-> S1("aB", Of("map", Of("map", Of("slice", S1("aB", Lf("int")))))),
      doc |-> Map(<<Ent("aB", Map(<<Ent("ka", Map(<<Ent("ka", Lst(<<Map(<<Ent("aB", Num("0"))>>)>>))>>))>>))>>)],
+    \* map of map of struct, slice of map of struct: an entry keyed like a field of the struct
+    [kf |-> "KF_DeepMapFieldKey",
+     ty |-> S1("aB", Of("map", Of("map", S1("aB", Lf("int"))))),
+     doc |-> Map(<<Ent("aB", Map(<<Ent("ka", Map(<<Ent("aB", Map(<<Ent("aB", Num("0"))>>))>>))>>))>>)],
+    [kf |-> "KF_DeepMapFieldKey",
+     ty |-> S1("", Of("slice", Of("map", S1("", Lf("int"))))),
+     doc |-> Map(<<Ent("Ab", Lst(<<Map(<<Ent("AB", Map(<<Ent("Ab", Num("7"))>>))>>)>>))>>)],
     \* a missing map field: empty map (mapping) against nil (encoding/json)
     [kf |-> "KF_PlainMissingMap", ty |-> S1("ab", Of("map", Lf("int"))), doc |-> Map(<<>>)],
     [kf |-> "KF_PlainMissingMap", ty |-> S1("aB", Of("map", Lf("int"))),
